@@ -58,10 +58,14 @@ CLAIMED = {
     'C12': dict(
         text="Termination of the real lexer and recursive-descent parser for every input string: every while loop has an integer variant "
              "(bounded below, strictly decreasing), the mutual recursion decreases the lexicographic measure (len(t)+1-i, rank), progress "
-             "postconditions on every reader. Unbounded in the input; discharged by z3 from VCs generated from the current source.",
+             "postconditions on every reader. Work bound: ghost `frontier` discipline - every parser-level reader starts at or after the "
+             "position up to which the text has been consumed, and nothing is parsed after a caught parse error (no backtracking). No "
+             "effect on variables: the evaluator entries carry `requires false` for callers inside the parser. Unbounded in the input; "
+             "discharged by z3 from VCs generated from the current source.",
         note="Assumed: termination of callees outside the parser (get_fn_arity, is_empty, backend.kg_asarray, node constructors); Python ints "
-             "mathematical; pyvc's encoding of the accepted Python subset. Not decided: the polynomial work bound; repeatability is argued from "
-             "the frame, not an SMT obligation.",
+             "mathematical; pyvc's encoding of the accepted Python subset; the step from 'no re-parse' to 'linear number of reader calls' "
+             "is a paper argument (laminar intervals), builtin string operations count as one step; repeatability is argued from the "
+             "frame, not an SMT obligation.",
         ref="DESIGN.md section 4 C12, Appendix A.1"),
     'C03': dict(
         text="Context-stack discipline of the real evaluator by assume-guarantee over eval -> _eval_fn -> call -> eval: on normal AND "
@@ -174,10 +178,14 @@ CLAIMED = {
              "__init__ and preserved by update_file / get_file / unload_file on normal AND exceptional exits; worker tasks (_write_file, "
              "_load_file, update_file_futures_and_memory, recover_memory with loop invariants and variant, _unload_file, "
              "update_file_access_time) under the weaker in-lock invariant W; KeyValueStorage.get/set/__getitem__/__setitem__: set => file "
-             "contents == ser(v), other paths untouched; get == deser(file) cached or not; never-set / directory key reads :undefined.",
+             "contents == ser(v), other paths untouched; get == deser(file) cached or not; never-set / directory key reads :undefined. "
+             "Table store: PandasDataFrameCache.update against the documented merge over abstract frames (stored rows win on equal index, "
+             "new index values added, result unique and sorted) with pandas' concat / duplicated / sort_index (NOT stable) as assumed "
+             "contracts.",
         note="Assumed: single client (a task runs when its submitter waits for it), ghost file model, pickle round trip, join injective on "
-             "normalised keys, library contracts of dict/heapq/Lock/ThreadPoolExecutor, msum lemmas (Lean). Not decided: the table store "
-             "(pandas merge), LRU order, alias spellings of one path.",
+             "normalised keys, library contracts of dict/heapq/Lock/ThreadPoolExecutor/pandas, msum lemmas (Lean); the table merge uses "
+             "get_file/update_file as abstract consequences of the FileCache contracts (assumed link). Not decided: LRU order, alias "
+             "spellings of one path, termination of the merge's retry recursion.",
         ref="DESIGN.md section 4 C16, Appendix A.3"),
     'C17': dict(
         text="Over a ghost three-level file model (Python buffer / OS cache / disk): _write_file ends with os[path]==data and, with "
